@@ -9,7 +9,7 @@ EXTENDS TraceBase, F64
 A == INSTANCE Arb
 P == INSTANCE Piecewise
 
-TraceInit == l = 1
+TraceInit == TallyInit /\ l = 1
 
 TraceArb ==
     /\ IsEvent("arb")
